@@ -43,6 +43,15 @@ def n_gleam(ws):
     return [i for i, (p, t) in enumerate(ws.files) if p.endswith(".gleam")]
 
 
+def graph_files(ws):
+    """the modules of the packages of the package graph: the .gleam files of every source root that holds a package's gleam.toml"""
+    roots = getattr(ws, "roots", None)
+    if not roots:
+        return n_gleam(ws)
+    tomls = {toml for (_, toml, _, _) in ws.pkgs}
+    return sorted(i for (_, idxs) in roots if tomls & set(idxs) for i in idxs if ws.files[i][0].endswith(".gleam"))
+
+
 def stage1(wss):
     """idents, then goto + prepare at every identifier token"""
     ans = run_workspaces([(ws, [f"idents\t{i}" for i in n_gleam(ws)]) for ws in wss])
@@ -523,8 +532,10 @@ def run_c06(res, tier, seed):
                     cls = "-" if t.goto is None else str(ids.setdefault(t.goto[:3], len(ids)))
                     tl.append(f"{t.file}:{t.start}:{t.stop}:{1 if t.parent in CASTABLE else 0}:{cls}:{hexs(t.text)}")
                 did = ids.setdefault(target, len(ids))
-                scope = [target[0]] if is_local else n_gleam(ws)
-                mreqs.append(f"refs\t{did}\t{hexs(sname)}\t{','.join(map(str, scope))}\t{';'.join(tl)}")
+                # the model computes the scope itself (searchScope): it gets the definition's module, whether it is a local,
+                # and the modules of the packages of the graph
+                scope = f"L:{target[0]}" if is_local else f"G:{target[0]}:{','.join(map(str, graph_files(ws)))}"
+                mreqs.append(f"refs\t{did}\t{hexs(sname)}\t{scope}\t{';'.join(tl)}")
                 mmeta.append((ws, ask, sorted(Rset)))
         closure_q.append((ws, cq))
     # closure queries
